@@ -119,6 +119,22 @@ class FortranExpressionMapper(_CodegenStringifyMapper):
                 self.join_rec(" * ", expr.children, PREC_PRODUCT, *args, **kwargs),
                 enclosing_prec, PREC_PRODUCT)
 
+    def map_power(self, expr, enclosing_prec, *args, **kwargs):
+        exponent = expr.exponent
+        if isinstance(exponent, int) and not isinstance(exponent, bool):
+            # Keep integer exponents integers (map_constant would print 2d0):
+            # raising a negative real to a real power is not allowed.
+            exponent_str = repr(exponent)
+            if exponent < 0:
+                exponent_str = "(%s)" % exponent_str
+            return self.parenthesize_if_needed(
+                    self.format("%s**%s",
+                        self.rec(expr.base, PREC_CALL, *args, **kwargs),
+                        exponent_str),
+                    enclosing_prec, PREC_POWER)
+
+        return super().map_power(expr, enclosing_prec, *args, **kwargs)
+
     def map_comparison(self, expr, enclosing_prec, *args, **kwargs):
         from pymbolic.mapper.stringifier import PREC_COMPARISON
 
